@@ -296,13 +296,16 @@ def _map_fill_protocol(fm: FuncModel, mname: str, src: str, g) -> list[str]:
                         and isinstance(rhs_, ast.Call) and callee_name(rhs_) == "root" and text(rhs_.func.value) == src:
                     if isinstance(t.ops[0], ast.Eq) == (pol == b.pol):
                         min_true.append(b)  # the root is handled after the loops
-        reach = reach_stop(fm, start, {m.cfgn.id for m in marks} | {b.id for b in min_true}, {hdr.id})
+        # a node whose flag is tested and found set needs no second store
+        already = {b.id for m in marks for b in expanded_assertions(fm, m.hk, True) if b.id in fm.cfg.loop_nodes[floop]}
+        reach = reach_stop(fm, start, {m.cfgn.id for m in marks} | {b.id for b in min_true} | already, {hdr.id})
         if hdr.id in reach:
             problems.append("a copied node that is not minimal in the source diagram can stay unmarked")
     # the attachment node itself is marked after the copy
     amarks = [e for e in fm.field_events() if e.kind == "store" and e.field == "expanded" and is_true(e.value)
               and e.nid == fm.key(attach, fm.cfgn(init))]
-    if not amarks or escapes(fm, g.cfgn, [m.cfgn for m in amarks], None, need_pre=False):
+    if not amarks or escapes(fm, g.cfgn, [m.cfgn for m in amarks] + [b for m in amarks for b in expanded_assertions(fm, m.hk, True)],
+                             None, need_pre=False):
         problems.append("the attachment node is not marked expanded on every path after the edges are copied")
     return problems
 
